@@ -530,7 +530,7 @@ def lift_block(blk, log, meta, canary=False):
             raise LiftError('template: stub lifts take no add_generics/add_param')
         _apply_substs(src, ed, blk, log)
         contract = _clauses('requires', blk.requires) + _clauses('ensures', blk.ensures)
-        segs.append(Seg('#[verifier::external_body]\n', tag='stub'))
+        segs.append(Seg('#[verifier::external_body]\n' + ('pub ' if a.get('pub') else ''), tag='stub'))
         segs.extend(ed.render())
         segs.append(Seg('\n', tag='stub'))
         segs.extend(contract)
